@@ -229,6 +229,8 @@ type zzSpecEntry struct {
 	state   string
 	certain bool // false: the statement leaves the outcome open (map A absent or unreadable, non-canonical letter case)
 	kind    string
+	// later indexable copies of the same space (they win when every earlier copy is an open case)
+	later []zzSpecEntry
 }
 
 var zzNewName = regexp.MustCompile(`^(\d+)_([a-fA-F0-9]{66})_(\d{2})\.(?i:massdb)$`)
@@ -299,9 +301,7 @@ func (e *zzEnvK) spec() map[string]zzSpecEntry {
 				continue
 			}
 			sid := NewSpaceID(int64(ord), pub, bl).String()
-			if _, dup := out[sid]; dup {
-				continue
-			}
+			first, dup := out[sid]
 			ent := zzSpecEntry{dir: dir, state: "registered", certain: true}
 			if legacy {
 				if _, err := e.disk.Stat(dir + "/" + zzNameB(int(ord), pub, bl)); err == nil {
@@ -327,6 +327,11 @@ func (e *zzEnvK) spec() map[string]zzSpecEntry {
 				if !ok || !zzValidHeader(ad, zzTypA, pub, bl) {
 					ent.certain = false
 				}
+			}
+			if dup {
+				first.later = append(first.later, ent)
+				out[sid] = first
+				continue
 			}
 			out[sid] = ent
 		}
@@ -741,8 +746,23 @@ func zzCheckIndex(e *zzEnvK, sk *SpaceKeeper, spec map[string]zzSpecEntry, when 
 			continue
 		}
 		if ws.rootDir != ent.dir {
-			r.Fail("C11/wrong-duplicate-wins/"+when, "space %s was taken from %s, the first directory holding an indexable copy is %s", sid[:8], ws.rootDir, ent.dir)
-			continue
+			// a later copy may win only if every earlier copy is a case the statement leaves open
+			ok := !ent.certain
+			found := false
+			for _, l := range ent.later {
+				if l.dir == ws.rootDir {
+					found = true
+					ent.state = l.state
+					break
+				}
+				if l.certain {
+					ok = false
+				}
+			}
+			if !ok || !found {
+				r.Fail("C11/wrong-duplicate-wins/"+when, "space %s was taken from %s, the first directory holding an indexable copy is %s", sid[:8], ws.rootDir, ent.dir)
+				continue
+			}
 		}
 		if ws.state.String() != ent.state {
 			r.Fail("C11/state-not-from-progress/"+when+"/"+kind, "space %s (%s) indexed as %s, its recorded progress says %s", sid[:8], kind, ws.state, ent.state)
